@@ -54,9 +54,10 @@ def debounce_(
             cancelable.disposable = d
 
             def action(scheduler: abc.SchedulerBase, state: Any = None) -> None:
-                if has_value[0] and _id[0] == current_id:
-                    observer.on_next(value[0])
+                emit = has_value[0] and _id[0] == current_id
                 has_value[0] = False
+                if emit:
+                    observer.on_next(value[0])
 
             d.disposable = _scheduler.schedule_relative(duetime, action)
 
@@ -131,18 +132,20 @@ def throttle_with_mapper_(
 
             def on_next(x: Any) -> None:
                 nonlocal has_value
-                if has_value and _id[0] == current_id:
+                emit = has_value and _id[0] == current_id
+                has_value = False
+                if emit:
                     observer.on_next(value)
 
-                has_value = False
                 d.dispose()
 
             def on_completed() -> None:
                 nonlocal has_value
-                if has_value and _id[0] == current_id:
+                emit = has_value and _id[0] == current_id
+                has_value = False
+                if emit:
                     observer.on_next(value)
 
-                has_value = False
                 d.dispose()
 
             d.disposable = throttle.subscribe(
